@@ -81,7 +81,15 @@ def replay_roundtrip(inp):
     return (not ok), msg
 
 
-REPLAY = {'find_element': replay_find_element, 'lmpdat_masses': replay_lmpdat, 'roundtrip': replay_roundtrip}
+def replay_sequence(inp):
+    for m, tol in inp['sequence']:
+        ok, msg = check_lmpdat([float(m), 12.0107], guess_atol=float(tol))
+        if not ok:
+            return True, "in the load sequence %r: %s" % (inp['sequence'], msg)
+    return False, 'every load of the sequence agrees with the table'
+
+
+REPLAY = {'lmpdat_seq': replay_sequence, 'find_element': replay_find_element, 'lmpdat_masses': replay_lmpdat, 'roundtrip': replay_roundtrip}
 
 
 def run(rec, tier, seed):
@@ -138,4 +146,14 @@ def run(rec, tier, seed):
         rec.case(('rt', e), group='roundtrip')
         if not ok:
             rec.fail('roundtrip', 'roundtrip', msg, {'element': e}, contract='C14/roundtrip')
+    # no hidden state between loads: a mass matched under a wide tolerance must not stay matched under a strict one, and vice versa
+    for seq in ([(12.4, 0.5), (12.4, 0.1), (12.4, 0.01)], [(296.5, 3.0), (296.5, 0.1)], [(58.8, 0.05), (58.8, 0.5), (58.8, 0.05)], [(2.5, 2.0), (2.5, 0.1), (39.5, 0.6), (39.5, 0.1)]):
+        for (m, tol) in seq:
+            try:
+                ok, msg = check_lmpdat([m, 12.0107], guess_atol=tol)
+            except Exception as e:
+                ok, msg = False, "load_lmpdat raised %r" % (e,)
+            rec.case(('seq', m, tol, tuple(seq)), group='load-sequence')
+            if not ok:
+                rec.fail('lmpdat_seq', 'load_lmpdat-sequence', "in the load sequence %r: %s" % (seq, msg), {'sequence': [list(x) for x in seq]}, contract='C14/load_lmpdat')
     rec.bounds = {'tolerances': tols, 'table_rows': len(T)}
